@@ -193,7 +193,12 @@ def rule_r1_index_spaces(prog: Program, col: Collector) -> None:
         col.assume(f"R1 exception {k[0]} indexed by {k[1]}: {v}")
     NEC = ("an array sized for one index space and indexed by another overflows (IndexError) or silently aliases entries: "
            "a RANK-sized id->rank table indexed by metacoalition ids fails for every limit below the number of coalitions - 1")
+    self_calls = {n.func.attr for r in sp.methods.values() for n in ast.walk(r.node)
+                  if isinstance(n, ast.Call) and isinstance(n.func, ast.Attribute) and isinstance(n.func.value, ast.Name) and n.func.value.id == "self"}
     for name, ref in sp.methods.items():
+        if name in self_calls and prog.inlinable(ref) and not ref.node.decorator_list:
+            col.note(f"helper method {name} is read through at its call sites (no rule names it): not typed in isolation")
+            continue
         ft = fterms(prog, ref)
         # local allocations
         local_alloc: dict[Term, tuple] = {}
